@@ -1,4 +1,5 @@
 mod common;
+mod c17;
 mod c18;
 mod c12;
 mod c19;
@@ -38,6 +39,8 @@ fn main() {
         "C19" => c19::run(&args),
         "C12" => c12::run(&args),
         "C18" => c18::run(&args),
+        "C17" => c17::run(&args),
+        "C17child" => c17::child_run(&args.rest),
         x => {
             eprintln!("unknown property {}", x);
             std::process::exit(2);
